@@ -59,8 +59,9 @@ inductive Fn (V K : Type)
                                                 -- FunctionalQuadraticPerturb: f + a<x,x> + <x,u> + c
   | prod (f g : Fn V K)                         -- FunctionalProduct
   | quot (f g : Fn V K)                         -- FunctionalQuotient
-  | comp (f : Fn V K) (op : V → V) (dAdj : V → V → V)
-                                                -- FunctionalComp: f(op x); dAdj x y = op.derivative(x).adjoint(y)
+  | comp (f : Fn V K) (op : V → V) (dAdj : V → V → V) (opLin : Bool)
+                                                -- FunctionalComp: f(op x); dAdj x y = op.derivative(x).adjoint(y);
+                                                -- opLin = op.is_linear
   | breg (f : Fn V K) (p q : V)                 -- BregmanDistance(f, point=p, subgrad=q)
   | infconv (f g : Fn V K)                      -- InfimalConvolution (no `_call`)
   | menv (f : Fn V K) (P : V → V) (σ : K)       -- MoreauEnvelope(f, σ); P = f.proximal(σ) (no `_call`)
@@ -99,7 +100,7 @@ def Fn.evaluable : Fn V K → Bool
   | .menv _ _ _ => false
   | .dconj _ => false
   | .lscal _ f | .rscal f _ | .rvec f _ _ | .ssum f _ | .trans f _ | .qp f _ _ _ _
-  | .comp f _ _ | .breg f _ _ => f.evaluable
+  | .comp f _ _ _ | .breg f _ _ => f.evaluable
   | .sum f g | .prod f g | .quot f g => f.evaluable && g.evaluable
   | _ => true
 
@@ -121,7 +122,7 @@ def Fn.value : Fn V K → V → K
   | .qp f a _ u c, x => f.value x + a * o.inner x x + o.inner x u + c
   | .prod f g, x => f.value x * g.value x
   | .quot f g, x => f.value x / g.value x
-  | .comp f op _, x => f.value (op x)
+  | .comp f op _ _, x => f.value (op x)
   | .breg f p q, x =>
       f.value x + 0 * o.inner x x + o.inner x (o.smul (-1) q) + (-(f.value p) + o.inner q p)
   | .infconv _ _, _ => 0
@@ -141,7 +142,7 @@ def Fn.dom : Fn V K → V → Bool
   | .qp f _ _ _ _, x => f.dom x
   | .prod f g, x => f.dom x && g.dom x
   | .quot f g, x => f.dom x && g.dom x
-  | .comp f op _, x => f.dom (op x)
+  | .comp f op _ _, x => f.dom (op x)
   | .breg f _ _, x => f.dom x
   | _, _ => true
 
@@ -153,7 +154,7 @@ def Fn.hasGrad : Fn V K → Bool
   | .dconj _ => false
   | .menv _ _ _ => true
   | .lscal _ f | .rscal f _ | .rvec f _ _ | .ssum f _ | .trans f _ | .qp f _ _ _ _
-  | .comp f _ _ | .breg f _ _ => f.hasGrad
+  | .comp f _ _ _ | .breg f _ _ => f.hasGrad
   | .sum f g | .prod f g | .quot f g => f.hasGrad && g.hasGrad
   | _ => true
 
@@ -177,7 +178,7 @@ def Fn.grad : Fn V K → V → V
   | .quot f g, x =>
       o.add (o.smul (1 / g.value o x) (f.grad x))
             (o.smul (-(f.value o x) / (g.value o x * g.value o x)) (g.grad x))
-  | .comp f op dAdj, x => dAdj x (f.grad (op x))
+  | .comp f op dAdj _, x => dAdj x (f.grad (op x))
   | .breg f _ q, x => o.sub (f.grad x) q
   | .infconv _ _, _ => o.zero
   | .menv _ P σ, x => o.sub (o.smul (1 / σ) x) (o.smul (1 / σ) (P x))
@@ -221,11 +222,60 @@ def Fn.isLinear : Fn V K → Bool
   | .sum f g => f.isLinear && g.isLinear
   | .ssum f c => f.isLinear && (c = 0)
   | .qp f a _ _ c => f.isLinear && (a = 0) && (c = 0)
+  | .rvec f _ _ => f.isLinear            -- FunctionalRightVectorMult: linear=func.is_linear
+  | .comp f _ _ opLin => f.isLinear && opLin   -- FunctionalComp: func.is_linear and op.is_linear
+  | .dconj f => f.isLinear               -- FunctionalDefaultConvexConjugate: linear=func.is_linear
   | _ => false
+
+/-- `f.translated(t)` = `FunctionalTranslation(f, t)`: the constructor MERGES nested
+translations (`functional = f.functional`, `translation = f.translation + t`). -/
+def Fn.translated (f : Fn V K) (t : V) : Fn V K :=
+  match f with
+  | .trans g t0 => .trans g (o.add t0 t)
+  | _ => .trans f t
+
+/-- `FunctionalLeftScalarMult(f, s)`: `OperatorLeftScalarMult.__init__` MERGES a nested left
+scalar multiplication (`scalar = s * f.scalar`, `operator = f.operator`). -/
+def Fn.mkLscal (s : K) (f : Fn V K) : Fn V K :=
+  match f with
+  | .lscal s0 g => .lscal (s * s0) g
+  | _ => .lscal s f
+
+/-- `FunctionalRightScalarMult(f, s)`: `OperatorRightScalarMult.__init__` merges likewise. -/
+def Fn.mkRscal (f : Fn V K) (s : K) : Fn V K :=
+  match f with
+  | .rscal g s0 => .rscal g (s * s0)
+  | _ => .rscal f s
 
 /-- `f * s` as `Functional.__mul__` dispatches for a scalar `s ≠ 0`. -/
 def Fn.mulScalar (f : Fn V K) (s : K) : Fn V K :=
-  if f.isLinear then .lscal s f else .rscal f s
+  if f.isLinear then Fn.mkLscal s f else Fn.mkRscal f s
+
+/-- Class skeleton of an expression (constructor names in prefix order), compared by the C08
+harness with the class tree of the live `f.convex_conj`. -/
+def Fn.skel : Fn V K → List String
+  | .coord .l1 => ["l1"]
+  | .coord .indLinf => ["indlinf"]
+  | .coord (.huber _) => ["huber"]
+  | .l2sq => ["l2sq"]
+  | .const _ => ["const"]
+  | .indZero _ => ["indzero"]
+  | .lin _ _ => ["lin"]
+  | .quad .. => ["quad"]
+  | .lscal _ f => "lscal" :: f.skel
+  | .rscal f _ => "rscal" :: f.skel
+  | .rvec f _ _ => "rvec" :: f.skel
+  | .sum f g => "sum" :: (f.skel ++ g.skel)
+  | .ssum f _ => "ssum" :: f.skel
+  | .trans f _ => "trans" :: f.skel
+  | .qp f _ _ _ _ => "qp" :: f.skel
+  | .prod f g => "prod" :: (f.skel ++ g.skel)
+  | .quot f g => "quot" :: (f.skel ++ g.skel)
+  | .comp f _ _ _ => "comp" :: f.skel
+  | .breg f _ _ => "breg" :: f.skel
+  | .infconv f g => "infconv" :: (f.skel ++ g.skel)
+  | .menv f _ _ => "menv" :: f.skel
+  | .dconj f => "dconj" :: f.skel
 
 /-- `f.convex_conj` as the classes build it; `none` = the property raises (`ValueError` for a
 non-positive left scalar); classes without an explicit rule get the default wrapper `dconj`
@@ -237,7 +287,7 @@ def Fn.conj : Fn V K → Option (Fn V K)
   | .l2sq => some (.lscal (1 / (two * two)) .l2sq)
   | .const c => some (.indZero (-c))
   | .indZero c => some (.const (-c))
-  | .lin b c => some (.trans (.indZero (-c)) b)
+  | .lin b c => some (Fn.translated o (.indZero (-c)) b)
   | .quad A At Ainv AinvT hasB b c =>
       -- operator `0.25 * A.inverse` (its inverse: `A.inverse.inverse * 4`), vector
       -- `0.25 * (-Ainv.adjoint(b) - Ainv(b))`, constant `0.25 * <b, Ainv b> - c`
@@ -254,7 +304,7 @@ def Fn.conj : Fn V K → Option (Fn V K)
       if s ≤ 0 then none else
       match f.conj with
       | none => none
-      | some g => some (Fn.mulScalar (.lscal s g) (1 / s))
+      | some g => some (Fn.mulScalar (Fn.mkLscal s g) (1 / s))
   | .rscal f s => match f.conj with
       | none => none
       | some g => some (Fn.mulScalar g (1 / s))
@@ -271,7 +321,7 @@ def Fn.conj : Fn V K → Option (Fn V K)
       if a = 0 then
         match f.conj with
         | none => none
-        | some g => if c = 0 then some (.trans g u) else some (.ssum (.trans g u) (-c))
+        | some g => if c = 0 then some (g.translated o u) else some (.ssum (g.translated o u) (-c))
       else some (.dconj (.qp f a hasU u c))
   | .breg f p q =>
       match f.conj with
@@ -279,7 +329,7 @@ def Fn.conj : Fn V K → Option (Fn V K)
       | some g =>
         let c := -(f.value o p) + o.inner q p
         let u := o.smul (-1) q
-        if c = 0 then some (.trans g u) else some (.ssum (.trans g u) (-c))
+        if c = 0 then some (g.translated o u) else some (.ssum (g.translated o u) (-c))
   | .infconv f g => match f.conj, g.conj with
       | some f', some g' => some (.sum f' g')
       | _, _ => none
